@@ -25,10 +25,12 @@ package main
 //@ split returns
 //@ requires in != nil && p.out != nil && p.err != nil && !vcSameObject(in, p.out)
 //@ modifies p.idx
-//@ invariant loop0 p.out == old(p.out) && p.err == old(p.err)
+//@ invariant loop0 p.out == old(p.out) && p.err == old(p.err) && vcCalls("Reader.Annotations") == vcCalls("Reader.Next")
 //@ ensures[C20] p.out == old(p.out) && p.err == old(p.err)
 //@ atcall[C20] Reader.StepIn :: ion.Reader :: !in.IsNull() && (in.Type() == ion.ListType || in.Type() == ion.SexpType || in.Type() == ion.StructType)
-//@ atcall[C20] Writer.WriteNullType :: ion.Writer, ion.Type :: in.IsNull() && a1 == in.Type() && a1 != ion.NullType
+//@ counts Reader.Annotations
+//@ counts Reader.Next
+//@ atcall[C20] Writer.WriteNullType :: ion.Writer, ion.Type :: in.IsNull() && a1 == in.Type() && a1 != ion.NullType && vcCalls("Reader.Annotations") == vcCalls("Reader.Next")
 //@ atcall[C20] Writer.WriteNull :: ion.Writer :: in.Type() == ion.NullType
 //@ atcall[C20] Writer.WriteBool :: ion.Writer, bool :: in.Type() == ion.BoolType && !in.IsNull()
 //@ atcall[C20] Writer.WriteInt :: ion.Writer, int64 :: in.Type() == ion.IntType && !in.IsNull()
